@@ -400,3 +400,86 @@ Example c07_source_slp_nonvacuous :
   SrcRun.src_slp 2 None 3 2 lp hyp = Some (Some [[-18; -16]]%Z) /\
   SrcRun.src_slp 2 (Some 1%Z) 0 2 [[]] [[]] = Some None.
 Proof. cbv zeta. repeat split; vm_compute; reflexivity. Qed.
+
+(* ---- second tie to the source text: ctc_greedy_search ---------------------------------------------------------------------
+   PV.Gen.C07BSrc.greedy_body is regenerated on every run from /repo/src/pydrobert/torch/_decoding.py (`ctc_greedy_search`,
+   whole body; the decorators are outside it: TorchScript is not modelled) by harness/py2coq/translate.py; PV.MiniPy.Interp is
+   its semantics; SrcRunB.ext07B gives the torch calls (dim, size, transpose, max over the last dimension with the FIRST maximal
+   index, != , x[:, a:b], cat, arange, unsqueeze, broadcasting <, &, ~, masked_fill, long, sum, prod, masked_select,
+   masked_scatter_, t) the meaning defined in PV.MiniTorch.OpsC07 / OpsC07B (floats = exact rationals or -inf); Tensor.log_softmax
+   is an ORACLE [lsm] (any shape-preserving function; the model receives its values as data, as everywhere in C07).  The theorems
+   are about that regenerated term, for EVERY batch size, length, vocabulary, blank index, in_lens, both layouts (batch_first) and
+   both score kinds (is_probs).  Hypotheses: the logits tensor is 3-dimensional with the layout's shape and the scores it (or the
+   oracle applied to it) holds are the well-formed nested list [lp]; in_lens, when given, has one entry per batch element; for
+   is_probs the scores are finite (a product with -inf is outside the modelled floats). *)
+From PV Require MiniTorch.OpsC07B Gen.C07BSrc C07.SrcRunB C07.ModelB C07.TieB.
+
+(* interpreting the source of ctc_greedy_search returns exactly (scores, paths, lengths) of the as-coded model over the float
+   carrier (ModelB.ctc_greedy_g = Model.ctc_greedy with the carrier as a parameter) - or raises RuntimeError where the model has
+   its error (blank index out of range) *)
+Theorem c07_source_greedy_is_model : forall (lsm : OpsC07.tn OpsC07.xq -> OpsC07.tn OpsC07.xq) (mn : OpsC07.tn OpsC07.xq -> OpsC07.tn Z)
+  (L0 : OpsC07.tn OpsC07.xq) N T V (lp : list (list (list OpsC07.xq))) in_lens blank (bf ip : bool),
+  OpsC07.shp L0 = (if bf then [N; T; V] else [T; N; V]) ->
+  (if ip then L0 else lsm L0) = SrcRunB.logits3 bf N T V (SrcRunB.lp3 OpsC07.xzero lp) ->
+  TieB.wf_lp N T V lp ->
+  (forall ls, in_lens = Some ls -> length ls = N) ->
+  (ip = true -> TieB.all_fin3 lp = true) ->
+  match ModelB.ctc_greedy_g OpsC07B.xltb OpsC07.xadd OpsC07B.xmul OpsC07.xzero OpsC07B.xone OpsC07B.xone ip (Z.of_nat V) blank T in_lens lp with
+  | Some g => exists st, SrcRunB.run_greedy lsm mn L0 (SrcRunB.in_lens_tensor in_lens) blank bf ip = Interp.Ok (TieB.greedy_result bf N T g) st
+  | None => exists st, SrcRunB.run_greedy lsm mn L0 (SrcRunB.in_lens_tensor in_lens) blank bf ip = Interp.Exc SrcRun.runtime_error st
+  end.
+Proof. exact TieB.greedy_tie. Qed.
+Print Assumptions c07_source_greedy_is_model.
+
+(* the blank-index check alone: any 3-dimensional logits, any other arguments *)
+Theorem c07_source_greedy_raises : forall (lsm : OpsC07.tn OpsC07.xq -> OpsC07.tn OpsC07.xq) (mn : OpsC07.tn OpsC07.xq -> OpsC07.tn Z)
+  (L0 : OpsC07.tn OpsC07.xq) il blank (bf ip : bool),
+  length (OpsC07.shp L0) = 3 ->
+  (blank < - Z.of_nat (nth 2 (OpsC07.shp L0) 0%nat) \/ Z.of_nat (nth 2 (OpsC07.shp L0) 0%nat) - 1 < blank)%Z ->
+  exists st, SrcRunB.run_greedy lsm mn L0 il blank bf ip = Interp.Exc SrcRun.runtime_error st.
+Proof. exact TieB.greedy_run_raises. Qed.
+Print Assumptions c07_source_greedy_raises.
+
+(* on floats that are integers (the carrier of Model.ctc_greedy; the fill value 1.0 is one = 1) the interpreted source returns
+   Model.ctc_greedy's scores, paths and lengths *)
+Theorem c07_source_greedy_is_model_Z : forall (lsm : OpsC07.tn OpsC07.xq -> OpsC07.tn OpsC07.xq) (mn : OpsC07.tn OpsC07.xq -> OpsC07.tn Z)
+  (L0 : OpsC07.tn OpsC07.xq) N T V (lp : list (list (list Z))) in_lens blank (bf ip : bool),
+  OpsC07.shp L0 = (if bf then [N; T; V] else [T; N; V]) ->
+  (if ip then L0 else lsm L0) = SrcRunB.logits3 bf N T V (SrcRunB.lp3 OpsC07.xzero (TieB.zq3 lp)) ->
+  TieB.wf_lp N T V lp ->
+  (forall ls, in_lens = Some ls -> length ls = N) ->
+  match ctc_greedy ip 1%Z (Z.of_nat V) blank T in_lens lp with
+  | Some g => exists st, SrcRunB.run_greedy lsm mn L0 (SrcRunB.in_lens_tensor in_lens) blank bf ip = Interp.Ok (TieB.greedy_result_Z bf N T g) st
+  | None => exists st, SrcRunB.run_greedy lsm mn L0 (SrcRunB.in_lens_tensor in_lens) blank bf ip = Interp.Exc SrcRun.runtime_error st
+  end.
+Proof. exact TieB.greedy_tie_Z. Qed.
+Print Assumptions c07_source_greedy_is_model_Z.
+
+(* COMPOSED with c07_greedy_correct, purely about the interpreted source: what it returns holds, per batch element, the
+   frame-wise best labels within the valid length with repeats and blanks removed (in the first out_lens entries of the path),
+   their number, and the summed (is_probs: multiplied) frame maxima *)
+Theorem c07_source_greedy_correct : forall (lsm : OpsC07.tn OpsC07.xq -> OpsC07.tn OpsC07.xq) (mn : OpsC07.tn OpsC07.xq -> OpsC07.tn Z)
+  (L0 : OpsC07.tn OpsC07.xq) N T V (lp : list (list (list Z))) in_lens blank (bf ip : bool),
+  OpsC07.shp L0 = (if bf then [N; T; V] else [T; N; V]) ->
+  (if ip then L0 else lsm L0) = SrcRunB.logits3 bf N T V (SrcRunB.lp3 OpsC07.xzero (TieB.zq3 lp)) ->
+  TieB.wf_lp N T V lp ->
+  (forall ls, in_lens = Some ls -> length ls = N) ->
+  (- Z.of_nat V <= blank <= Z.of_nat V - 1)%Z ->
+  let b := norm_blank (Z.of_nat V) blank in
+  let ll := eff_lens T in_lens N in
+  exists g st, SrcRunB.run_greedy lsm mn L0 (SrcRunB.in_lens_tensor in_lens) blank bf ip = Interp.Ok (TieB.greedy_result_Z bf N T g) st /\
+    g_lens g = map2 (fun l fr => length (row_path b T l fr)) ll lp /\
+    map2 (fun l p => firstn l p) (g_lens g) (g_paths g) = map2 (row_path b T) ll lp /\
+    g_score g = map2 (row_score ip 1%Z T) ll lp.
+Proof. exact TieB.source_greedy_correct. Qed.
+Print Assumptions c07_source_greedy_correct.
+
+(* non-vacuity: the interpreted source on the case of c07_greedy_nonvacuous (labels 1,1,0,2,2, blank 0 given as -3, valid length
+   4), in both layouts, the out-of-range blank, and is_probs with dyadic probabilities k/8 *)
+Example c07_source_greedy_nonvacuous :
+  let lp := [[[0;5;5];[1;7;2];[9;1;1];[0;0;4];[0;1;6]]]%Z in
+  SrcRunB.src_greedy true false 0 (-3) 1 5 3 (Some [4%Z]) lp = Some (Some ([25%Z], [[1;2;0;2;2]], [2])) /\
+  SrcRunB.src_greedy false false 0 (-3) 1 5 3 (Some [4%Z]) lp = Some (Some ([25%Z], [[1;2;0;2;2]], [2])) /\
+  SrcRunB.src_greedy false false 0 3 1 5 3 (Some [4%Z]) lp = Some None /\
+  SrcRunB.src_greedy_check 0 true 8 3 1 5 (Some [4%Z]) lp (Some ([10080%Z], [[0;2;0;2;2]], [2])) = true.
+Proof. cbv zeta. repeat split; vm_compute; reflexivity. Qed.
